@@ -69,6 +69,14 @@ pub fn concurent_immix_mutator_prepare<VM: VMBinding>(
     .unwrap();
     immix_allocator.reset();
     crate::plan::mutator_context::common_prepare_func(mutator, _tls);
+    // Objects allocated from now on must be allocated as live: the Immix allocator of the common
+    // non-moving space must not keep bump-allocating into lines it acquired before this pause.
+    #[cfg(not(any(feature = "marksweep_as_nonmoving", feature = "immortal_as_nonmoving")))]
+    unsafe {
+        mutator
+            .allocator_impl_mut_for_semantic::<ImmixAllocator<VM>>(AllocationSemantics::NonMoving)
+    }
+    .reset();
 
     // Activate SATB
     if current_pause == Pause::InitialMark {
